@@ -9,8 +9,10 @@
 (*   C14.pins    pins held after the call differ from before                   *)
 EXTENDS Multimap, TraceKit
 
-VARIABLES l, viol
-tvars == <<ents, l, viol>>
+VARIABLES l, viol,
+          sawFF,   \* a key whose encoding starts with ff ff was inserted into this index
+          many     \* this index has held >= 100 entries
+tvars == <<ents, l, viol, sawFF, many>>
 V(tag, ln, info) == <<[tag |-> tag, line |-> ln, info |-> info, kf |-> "new"]>>
 
 VK(tag, ln, info, kf) == <<[tag |-> tag, line |-> ln, info |-> info, kf |-> kf]>>
@@ -22,7 +24,12 @@ Pins(e, ln) == IF Has(e, "pb") /\ PinnedPages(e.pb) # PinnedPages(e.pa) THEN V("
 (* integer, which is also the start node's "minus infinity" key, is the shortest way to trigger it.         *)
 (* Signature = call site: index kind "uniq" with key type "int".  Any other kind or key type is reported.   *)
 UniqInt(e) == e.kind = "uniq" /\ e.ktype = "int"
-KFOf(e) == IF UniqInt(e) THEN "KF-C17-uniq-int" ELSE "new"
+(* Known finding KF-C17-btree-ffff-stopper: B-tree over integer keys whose encoding starts with ff ff (>= 2147418112): *)
+(* such keys compare greater than the tree's 2-byte stopper key; after a split of the right-most leaf entries are    *)
+(* filed in / looked up from the wrong leaf.  Signature: kind btree, key type int, such a key was inserted (the       *)
+(* driver marks those calls with ffk) and the index has held >= 100 entries (smaller trees are one leaf).              *)
+BtFF(e) == e.kind = "btree" /\ e.ktype = "int" /\ sawFF /\ many
+KFOf(e) == IF UniqInt(e) THEN "KF-C17-uniq-int" ELSE IF BtFF(e) THEN "KF-C17-btree-ffff-stopper" ELSE "new"
 
 Fail(e, ln) == IF e.res = "ok" THEN <<>> ELSE VK("C17.fail", ln, <<e.ev, e.res>>, KFOf(e))
 
@@ -42,17 +49,21 @@ RangeCheck(e, ln) ==
        ELSE IF known /\ \E i \in 1..(Len(e.rids) - 1) : KeyOf(e.rids[i]) > KeyOf(e.rids[i + 1])
          THEN VK("C17.order", ln, [kind |-> e.kind, got |-> e.rids], KFOf(e)) ELSE <<>>
 
-TInit == Init /\ l = 1 /\ viol = <<>>
+TInit == Init /\ l = 1 /\ viol = <<>> /\ sawFF = FALSE /\ many = FALSE
 TNext ==
   /\ l <= TraceLen
   /\ LET e == TraceLog[l] IN
-     CASE e.ev = "Reset" -> ents' = {} /\ UNCHANGED viol
+     CASE e.ev = "Reset" -> ents' = {} /\ UNCHANGED viol /\ sawFF' = FALSE /\ many' = FALSE
        [] e.ev = "Create" -> UNCHANGED ents /\ viol' = AddViol(viol, Fail(e, l))
        [] e.ev = "MInsert" -> (IF e.res = "ok" THEN Insert(e.k, e.r) ELSE UNCHANGED ents) /\ viol' = AddViol(viol, Fail(e, l) \o Pins(e, l))
        [] e.ev = "MDelete" -> (IF e.res = "ok" THEN Delete(e.k, e.r) ELSE UNCHANGED ents) /\ viol' = AddViol(viol, Fail(e, l) \o Pins(e, l))
        [] e.ev = "MUpdate" -> (IF e.res = "ok" THEN Update(e.k, e.r, e.k2, e.r2) ELSE UNCHANGED ents) /\ viol' = AddViol(viol, Fail(e, l) \o Pins(e, l))
        [] e.ev = "MPoint" -> UNCHANGED ents /\ viol' = AddViol(viol, Fail(e, l) \o PointCheck(e, l) \o Pins(e, l))
        [] e.ev = "MRange" -> UNCHANGED ents /\ viol' = AddViol(viol, Fail(e, l) \o RangeCheck(e, l) \o Pins(e, l))
+  /\ LET e == TraceLog[l] IN
+       IF e.ev = "Reset" THEN TRUE
+       ELSE /\ sawFF' = (sawFF \/ (e.ev \in {"MInsert", "MUpdate"} /\ Has(e, "ffk")))
+            /\ many' = (many \/ Cardinality(ents') >= 100)
   /\ l' = l + 1
 TSpec == TInit /\ [][TNext]_tvars
 Done == (l = TraceLen + 1) => Emit(viol, l - 1)
